@@ -143,6 +143,16 @@ def run(ctx):
         for creds in ({'a': {'b': [falsy, 'x']}, 'roles': []}, {'a': [{'b': falsy}, {'b': 'y'}], 'roles': []}, {'a': {'b': [['x'], falsy]}, 'roles': []}):
             for parts, target in (([ev.ph('t')], {'t': str(falsy)}), ([ev.ph('t')], {'t': falsy}), ([str(falsy)] if str(falsy) else [ev.ph('t')], {'t': ''})):
                 cases.append(ec.enforce_case([('p:x', ev.generic('a.b', *parts))], {'by': 'name', 'name': 'p:x'}, target, creds, dflt=('opt', None), want='c05'))
+    # the right side is everything after the FIRST colon: further colons belong to it (values such as
+    # "compute:admin", a URL, an IPv6 address, a placeholder between colons)
+    for creds, lhs in (({'service': 'compute:admin', 'roles': []}, 'service'), ({'user': {'roles': [{'name': 'net:reader'}, {'name': 'x'}]}, 'roles': []}, 'user.roles.name'),
+                       ({'zone': 'az1:r2', 'roles': []}, 'zone'), ({'a': {'b': '::1'}, 'roles': []}, 'a.b'), ({'roles': []}, "'k'")):
+        for parts, target in ((['compute:admin'], {}), (['net:reader'], {}), ([ev.ph('az'), ':', ev.ph('rack')], {'az': 'az1', 'rack': 'r2'}), (['::1'], {}),
+                              (['k:v'], {}), ([ev.ph('t')], {'t': 'compute:admin'}), (['compute:', ev.ph('t')], {'t': 'admin'}), ([':'], {})):
+            for nest in ('self', 'not', 'alias'):
+                leaf = ev.generic(lhs, *parts)
+                rules = {'self': [('p:x', leaf)], 'not': [('p:x', ev.Not(leaf))], 'alias': [('p:x', ev.rule('g')), ('g', leaf)]}[nest]
+                cases.append(ec.enforce_case(rules, {'by': 'name', 'name': 'p:x'}, target, creds, dflt=('opt', None), want='c05'))
     # check objects are shared by every thread that uses the enforcer: a call suspended inside the
     # evaluation decides on its own target and credentials whatever another call does meanwhile
     n_conc = 0
